@@ -146,9 +146,11 @@ def main(argv):
         outside = []
         for key in keys:
             only = None
+            match = None
             if isinstance(key, (tuple, list)):
                 key, opts = key
                 only = opts.get('only')
+                match = opts.get('match')
             shown_key = key
             key = prog.resolve(key)
             world = World(prog)
@@ -180,6 +182,9 @@ def main(argv):
             funcs_report.append(fr)
             for ob in V.obls:
                 if only is not None and not any(ob.kind == k or ob.kind.startswith(k + '.') for k in only):
+                    outside.append(ob.name)
+                    continue
+                if match is not None and not any(re.search(rx, ob.name.split('#', 1)[1]) for rx in match):
                     outside.append(ob.name)
                     continue
                 tasks.append((key, ob, obligation_smt2(V, ob), 'obl'))
